@@ -372,6 +372,14 @@ def sat(f, budget=None):
     return bool(rec(f))
 
 
+def _maybe_sat(f):
+    """pruning only: a condition too large to decide within a small budget is kept as possibly satisfiable (never a verdict)"""
+    try:
+        return sat(f, [20000])
+    except AnalysisError:
+        return True
+
+
 def implies(f, g):
     return not sat(conj(f, neg(g)))
 
@@ -567,7 +575,7 @@ class Summary(object):
         for nm in names:
             val = [(g, v) for g, v in env[nm] if conj(pc, g) is not False]
             if len(val) > 1:
-                val = [(g, v) for g, v in val if sat(conj(pc, g))] or val
+                val = [(g, v) for g, v in val if _maybe_sat(conj(pc, g))] or val
             if not val:
                 val = [(True, ast.Name(id=nm, ctx=ast.Load()))]
             total *= len(val)
@@ -587,7 +595,7 @@ class Summary(object):
                     m1[nm] = v
                     new.append((gg, m1))
             if len(new) > MAXALT:
-                new = [(g, m_) for g, m_ in new if sat(conj(pc, g))]
+                new = [(g, m_) for g, m_ in new if _maybe_sat(conj(pc, g))]
             if len(new) > MAXALT or not new:
                 self.notes.append('%s kept opaque (too many alternatives)' % nm)
                 continue
@@ -596,7 +604,7 @@ class Summary(object):
         for g, m_ in combos:
             out.append((g, _expand_kwargs(_replace(expr, m_, bound))))
         if len(out) > 1:
-            out = [(g, n) for g, n in out if sat(conj(pc, g))] or out
+            out = [(g, n) for g, n in out if _maybe_sat(conj(pc, g))] or out
         return out
 
     def text_alts(self, expr, env, pc=True):
@@ -853,7 +861,7 @@ class Summary(object):
         nfr = _Frame(f, getattr(f, '_module', fr.mod), fr.stack + (f.name,))
         out = self.block(f.body, nenv, pc, nfr)
         rets = list(nfr.returns)
-        if out is not False and sat(out):
+        if out is not False and _maybe_sat(out):
             rets.append((out, ast.Constant(value=None)))
         # exceptional exits of the callee end the caller too
         raised = [c for c, kind in nfr.exits if kind == 'raise']
@@ -1249,25 +1257,42 @@ class Summary(object):
             self.record_calls(it, env, pc, fr)
             ia = self.alts(it, env, pc)
             if len(ia) == 1 and isinstance(ia[0][1], (ast.ListComp, ast.GeneratorExp)) and len(ia[0][1].generators) == 1 and not st.orelse \
-                    and isinstance(ia[0][1].elt, ast.Name) and isinstance(ia[0][1].generators[0].target, ast.Name) \
-                    and ia[0][1].elt.id == ia[0][1].generators[0].target.id and isinstance(st.target, ast.Name) and not getattr(st, '_comp_done', False):
-                # for x in [y for y in IT if C(y)]: BODY   ==   for x in IT: if C(x): BODY        (a filtering comprehension with identity element)
+                    and isinstance(ia[0][1].generators[0].target, ast.Name) and isinstance(st.target, ast.Name) and not getattr(st, '_comp_done', False):
+                # for x in [f(y) for y in IT if C(y)]: BODY   ==   for y' in IT: if C(y'): x = f(y'); BODY      (y' fresh)
                 import copy as _copy
                 gen = ia[0][1].generators[0]
-                cv, tv = gen.target.id, st.target.id
+                self.tmp += 1
+                cv, nv = gen.target.id, '%s__c%d' % (gen.target.id, self.tmp)
+                identity = isinstance(ia[0][1].elt, ast.Name) and ia[0][1].elt.id == cv
+                if identity:
+                    nv = st.target.id
 
                 class _Ren(ast.NodeTransformer):
                     def visit_Name(self_, n):
-                        return ast.copy_location(ast.Name(id=tv, ctx=n.ctx), n) if n.id == cv else n
+                        return ast.copy_location(ast.Name(id=nv, ctx=n.ctx), n) if n.id == cv else n
                 ifs = [_Ren().visit(_copy.deepcopy(c)) for c in gen.ifs]
                 body = list(st.body)
+                if not identity:
+                    body = [ast.Assign(targets=[_copy.deepcopy(st.target)], value=_Ren().visit(_copy.deepcopy(ia[0][1].elt)), lineno=st.lineno)] + body
                 if ifs:
                     test = ifs[0] if len(ifs) == 1 else ast.BoolOp(op=ast.And(), values=ifs)
-                    body = [ast.If(test=test, body=list(st.body), orelse=[], lineno=st.lineno)]
-                lowered = ast.For(target=st.target, iter=gen.iter, body=body, orelse=[], lineno=st.lineno)
+                    body = [ast.If(test=test, body=body, orelse=[], lineno=st.lineno)]
+                lowered = ast.For(target=ast.Name(id=nv, ctx=ast.Store()), iter=gen.iter, body=body, orelse=[], lineno=st.lineno)
                 lowered._comp_done = True
                 ast.fix_missing_locations(lowered)
                 return self.loop(lowered, env, pc, fr)
+            if len(ia) == 1 and isinstance(ia[0][1], ast.Attribute) and isinstance(ia[0][1].value, ast.Name) and ia[0][1].value.id in ('self', 'cls') and self.cname \
+                    and sum(1 for _ in ast.walk(fr.func)) < 1500:
+                # a class-level literal table (`_WIDTHS = ((TYPE_A, 8), (TYPE_B, 16))`) that no method rebinds: iterate the literal
+                # (only in small functions: unrolling multiplies the body)
+                an = ia[0][1].attr
+                try:
+                    cm, cv = self.py.class_attr(self.modname, self.cname, an)
+                except Exception:
+                    cv = None
+                rebinds = any(isinstance(x, ast.Attribute) and x.attr == an and isinstance(x.ctx, (ast.Store, ast.Del)) for mf in self.methods.values() for x in ast.walk(mf))
+                if isinstance(cv, (ast.Tuple, ast.List)) and not rebinds:
+                    ia = [(ia[0][0], cv)]
             if len(ia) == 1 and isinstance(ia[0][1], (ast.Tuple, ast.List)) and 0 < len(ia[0][1].elts) <= 8 and \
                     not any(isinstance(x, ast.Starred) for x in ia[0][1].elts):
                 return self.unroll(st, list(ia[0][1].elts), env, pc, fr)
